@@ -276,8 +276,19 @@ def rw_cap_const(draw: Any, unit: Unit) -> Optional[str]:
     owner, t = draw(st.sampled_from(cands))
     f = file_of(owner)
     cap = t.cap
-    form = draw(st.integers(0, 4))
-    if form == 0:
+    form = draw(st.integers(0, 7))
+    if form == 5:
+        # integers are exact at any size: a quotient of operands beyond 2**53 with a remainder close to the divisor
+        k = draw(st.integers(2**53, 2**72))
+        r = draw(st.sampled_from([0, 1, k // 2, k - 2, k - 1]))
+        text = f"{cap * k + r} / {k}"
+    elif form == 6:
+        k = draw(st.integers(2**53, 2**72)) | 1
+        text = f"(0 - {cap * k}) / (0 - {k})"
+    elif form == 7:
+        k = draw(st.integers(3, 2**40))
+        text = f"({cap} * {k} * {k} + {k * k - 1}) / {k} / {k}"
+    elif form == 0:
         a = draw(st.integers(0, cap))
         text = f"{a} + {cap - a}"
     elif form == 1:
